@@ -469,10 +469,16 @@ func (c *kase) finish() {
 	c.r.Count("scenario_"+c.cfg.Scenario, 1)
 	c.r.Count("landmark_"+c.ls.Landmark, 1)
 	c.r.Count("store_"+c.cfg.Store, 1)
+	if c.ls.Packed {
+		c.r.Count("layer_packed_minchunksize", 1)
+	}
 	if len(c.strong) > 0 {
 		c.r.NonTrivial(c.desc())
 		for _, s := range c.strong {
 			c.r.Count("strong_"+s, 1)
+			if c.ls.Packed {
+				c.r.Count("strong_"+s+"_on_packed_layer", 1)
+			}
 		}
 	}
 	if c.idx < 3 && !c.race {
